@@ -1,30 +1,11 @@
 /- C10 — the outcome of a parse depends on (metadata, document, configuration) only: the
    shared binding metadata is not written by a parse.  Property theorems (only). -/
 import XsdataModel.Proofs.C10Shared
-import XsdataModel.BindShared.Union
 import XsdataModel.Props.C10
 
 namespace Props.C10
 open Py Xs.Bind Proofs.C10 Proofs.C10Shared
 open Proofs.C10.Ex (exEnv exCtx metaRoot leafT unk docKids doc)
-
-/-- **parse_reads_given_context**: over a shared context the parser returns what the pure
-parser returns on the context as it stood when the call began, and hands the context on. -/
-theorem parseRootS_eq (e : BEnv) (cfg : ParserConfig) (clazz : ClassId) (t : Tree) (Γ : Ctx) :
-    parseRootS e cfg clazz t Γ = (parseRoot e Γ cfg clazz t, Γ) := by
-  obtain ⟨q, a, n, text, c, tl⟩ := t
-  simp only [parseRootS, parseRoot, bind, Except.bind]
-  cases xsiTypeOf e a n with
-  | error err => rfl
-  | ok xt =>
-    simp only
-    cases Γ.fetch clazz none xt with
-    | error err => rfl
-    | ok m =>
-      simp only [parseNodeS_eq]
-      cases parseNode e Γ cfg _ (Tree.node q a n text c tl) with
-      | error err => rfl
-      | ok out => rfl
 
 /-- **meta_unchanged_by_parse**: the binding metadata (every `XmlMeta`, `XmlVar` held by the
 context) after any parse — any document, any class, any of the 8 configurations, successful
@@ -67,41 +48,5 @@ example : (parseSeqS exEnv [⟨lenient, ['R'], doc ([leafT ['h','i'] ['a']] ++ u
           (['l'], .obj ['L'] [(['x'], .prim (.int 5)), (['i'], .prim (.int 7))])], 0),
        .error (.parser "Unknown property")] := by rfl
 
-
-/-! ## the options a union element is replayed under -/
-
-/-- **union_replay_config_spec**: the candidates of a union field are parsed with conversions
-strict and with the caller's own `fail_on_unknown_properties` / `fail_on_unknown_attributes`. -/
-theorem union_replay_config_spec (cfg : ParserConfig) :
-    (unionReplayConfig cfg).failOnConverterWarnings = true
-    ∧ (unionReplayConfig cfg).failOnUnknownProperties = cfg.failOnUnknownProperties
-    ∧ (unionReplayConfig cfg).failOnUnknownAttributes = cfg.failOnUnknownAttributes := ⟨rfl, rfl, rfl⟩
-
-/-- **union_replay_attr_policy**: hence inside a union-bound element an unknown attribute is
-treated by the caller's option exactly as anywhere else: `bind_attrs` of a candidate under the
-replay configuration decides like `bind_attrs` under the caller's (`unknown_attr_policy`):
-ignored when the option is off or the name is an xsi name, `ParserError` otherwise. -/
-theorem union_replay_attr_policy {m : XmlMeta} {q : QN} (hq : unknownAttr m q = true)
-    (e : BEnv) (cfg : ParserConfig) (ns : NsMap) (v : Str) (a1 a2 : List (QN × Str)) :
-    bindAttrs e (unionReplayConfig cfg) m (a1 ++ (q, v) :: a2) ns =
-      if attrReported cfg q then
-        thenFail (bindAttrs e (unionReplayConfig cfg) m a1 ns) (.parser "Unknown attribute")
-      else bindAttrs e (unionReplayConfig cfg) m (a1 ++ a2) ns := by
-  rw [unknown_attr_policy hq]
-  rfl
-
-/-- **union_replay_unknown_policy**: and an unknown child element below it by the caller's
-`fail_on_unknown_properties`: skipped when off (any position, any subtree). -/
-theorem union_replay_unknown_policy {e : BEnv} {Γ : Ctx} {cfg : ParserConfig} {m : XmlMeta} {q : QN}
-    (hc : cfg.failOnUnknownProperties = false) (hq : unknownFor m q = true)
-    (a : List (QN × Str)) (n : NsMap) (t : Option Str) (c : List Tree) (tl : Option Str)
-    (st : ElState) (w : Option QN) (pre post : List Tree) :
-    parseKids e Γ (unionReplayConfig cfg) m st w (pre ++ .node q a n t c tl :: post)
-      = parseKids e Γ (unionReplayConfig cfg) m st w (pre ++ post) :=
-  skip_invariant (cfg := unionReplayConfig cfg) hc hq a n t c tl st w pre post
-
-/- non-vacuity: the default configuration: attributes lenient in the replay as well -/
-example : attrReported (unionReplayConfig {}) ['z'] = false ∧ (unionReplayConfig {}).failOnConverterWarnings = true := by
-  decide
 
 end Props.C10
